@@ -191,3 +191,198 @@ Section FilterResample.
               end; cbn [option_map fst out_of_pyv]); reflexivity.
   Qed.
 End FilterResample.
+
+(* ================================================================ get_examples bodies of the combinators *)
+Lemma all_some_map' {A B : Type} (f : A -> option B) (g : A -> B) l :
+  (forall x, In x l -> f x = Some (g x)) -> all_some (map f l) = Some (map g l).
+Proof.
+  induction l as [|x l IH]; intros H; [reflexivity|].
+  cbn [map all_some]. rewrite (H x (or_introl eq_refl)), IH; [reflexivity|].
+  intros y Hy. apply H. right. exact Hy.
+Qed.
+
+Lemma norm_tuple_seq v :
+  as_seq (if is_list v then PU (as_seq v) else (if is_tensor v then PU [as_tensor v] else v)) = cols_of v.
+Proof. destruct v; reflexivity. Qed.
+
+Lemma mg_cart_eq cs : mg_cart cs = cart cs.
+Proof. reflexivity. Qed.
+
+Lemma meshgrid_ij_eq axes : meshgrid_ij axes = transpose (length axes) (cart axes).
+Proof. reflexivity. Qed.
+
+(* ---- zip( *values ) + cat per tuple  =  the model's per-dimension append *)
+Lemma map_concat_zipwith_cons (a : list (list Z)) : forall R : list (list (list Z)),
+    map (@concat Z) (zipwith cons a R) = zip_app Z a (map (@concat Z) R).
+Proof.
+  induction a as [|x a IH]; intros [|r R]; cbn [zipwith map zip_app]; try reflexivity.
+  rewrite IH. reflexivity.
+Qed.
+
+Lemma zipn_app_zipn (css : list (list (list Z))) : zipn_app css = map (@concat Z) (zipn css).
+Proof.
+  induction css as [|cs rest IH]; [reflexivity|].
+  destruct rest as [|cs2 rest'].
+  - cbn [zipn_app zipn]. rewrite map_map. cbn [concat]. symmetry.
+    rewrite <- (map_id cs) at 2. apply map_ext. intros c. apply app_nil_r.
+  - change (zipn_app (cs :: cs2 :: rest')) with (zip_app Z cs (zipn_app (cs2 :: rest'))).
+    change (zipn (cs :: cs2 :: rest')) with (zipwith cons cs (zipn (cs2 :: rest'))).
+    rewrite IH, map_concat_zipwith_cons. reflexivity.
+Qed.
+
+Lemma forms_all_tensor vs :
+  forallb (fun o : out => form_eqb (fst o) FT) (map out_of_pyv vs) = forallb is_tensor vs.
+Proof. induction vs as [|[t|l|l] vs IH]; cbn; rewrite ?IH; reflexivity. Qed.
+
+Lemma forms_no_tensor vs :
+  forallb (fun o : out => negb (form_eqb (fst o) FT)) (map out_of_pyv vs) = negb (existsb is_tensor vs).
+Proof. induction vs as [|[t|l|l] vs IH]; cbn; rewrite ?IH; reflexivity. Qed.
+
+Lemma tensors_concat vs :
+  forallb is_tensor vs = true ->
+  concat (map (fun o : out => hd [] (snd o)) (map out_of_pyv vs)) = concat (map as_tensor vs).
+Proof.
+  induction vs as [|[t|l|l] vs IH]; cbn [forallb is_tensor andb]; intros H; try discriminate; [reflexivity|].
+  cbn [map concat out_of_pyv snd hd as_tensor]. rewrite IH by exact H. reflexivity.
+Qed.
+
+Lemma no_tensor_cols vs :
+  existsb is_tensor vs = false -> map snd (map out_of_pyv vs) = map as_seq vs.
+Proof.
+  induction vs as [|[t|l|l] vs IH]; cbn [existsb is_tensor orb]; intros H; try discriminate; [reflexivity| |];
+    cbn [map out_of_pyv snd as_seq]; rewrite IH by exact H; reflexivity.
+Qed.
+
+Lemma concat_out_py (vs : list pyv) :
+  concat_out (map out_of_pyv vs) =
+  match index0 vs with
+  | None => None
+  | Some e => if is_tensor e then option_map (fun t => out_of_pyv (PT t)) (cat_all vs)
+              else option_map (fun z => out_of_pyv (PL (map (@concat Z) z))) (zip_star vs)
+  end.
+Proof.
+  destruct vs as [|v0 vs']; [reflexivity|]. cbn [index0].
+  unfold concat_out, cat_all, zip_star.
+  destruct v0 as [t|l|l]; cbn [map out_of_pyv is_tensor].
+  - (* first value is a tensor *)
+    change ((FT, [t]) :: map out_of_pyv vs') with (map out_of_pyv (PT t :: vs')).
+    rewrite forms_all_tensor.
+    destruct (forallb is_tensor (PT t :: vs')) eqn:E; [|reflexivity].
+    change (Some (FT, [concat (map (fun o : out => hd [] (snd o)) (map out_of_pyv (PT t :: vs')))])
+            = Some (FT, [concat (map as_tensor (PT t :: vs'))])).
+    rewrite (tensors_concat (PT t :: vs') E). reflexivity.
+  - change ((FL, l) :: map out_of_pyv vs') with (map out_of_pyv (PL l :: vs')).
+    rewrite forms_no_tensor.
+    destruct (existsb is_tensor (PL l :: vs')) eqn:E; cbn [negb]; [reflexivity|].
+    change (Some (FL, zipn_app (map snd (map out_of_pyv (PL l :: vs'))))
+            = Some (FL, map (@concat Z) (zipn (map as_seq (PL l :: vs'))))).
+    rewrite (no_tensor_cols _ E), zipn_app_zipn. reflexivity.
+  - change ((FU, l) :: map out_of_pyv vs') with (map out_of_pyv (PU l :: vs')).
+    rewrite forms_no_tensor.
+    destruct (existsb is_tensor (PU l :: vs')) eqn:E; cbn [negb]; [reflexivity|].
+    change (Some (FL, zipn_app (map snd (map out_of_pyv (PU l :: vs'))))
+            = Some (FL, map (@concat Z) (zipn (map as_seq (PU l :: vs'))))).
+    rewrite (no_tensor_cols _ E), zipn_app_zipn. reflexivity.
+Qed.
+
+Lemma zipwith_apply (f : option nat -> list Z -> list Z) ts : forall cs,
+    zipwith (fun t x => t x) (map f ts) cs = zip_trans f ts cs.
+Proof.
+  induction ts as [|t ts IH]; intros [|c cs]; cbn [map zipwith zip_trans]; try reflexivity.
+  rewrite IH. reflexivity.
+Qed.
+
+Section Bodies.
+  Variable draw : nat -> nat -> list (list Z).
+  Variable mask : nat -> nat -> list bool.
+  Variable rperm rint : nat -> nat -> list nat.
+  Variable tvec : nat -> list Z -> list Z.
+  Variable tmulti : nat -> list (list Z) -> out.
+  Notation sample := (sample draw mask rperm rint tvec tmulti).
+
+  Variable get : gen -> pyv.           (* what each child returns at this call *)
+  Variable k : nat.
+
+  Lemma children_samples (gs : list gen) :
+    (forall h, In h gs -> sample h k = Some (out_of_pyv (get h))) ->
+    all_some (map (fun h => sample h k) gs) = Some (map out_of_pyv (map get gs)).
+  Proof. intros H. rewrite map_map. apply all_some_map'. exact H. Qed.
+
+  Lemma children_cols (gs : list gen) :
+    concat (map snd (map out_of_pyv (map get gs))) = flat_map (fun g => cols_of (get g)) gs.
+  Proof.
+    rewrite flat_map_concat_map, !map_map. f_equal. apply map_ext. intros g. apply snd_out_of_pyv.
+  Qed.
+
+  (* ConcatGenerator.get_examples *)
+  Theorem gen_concat_get_eq (gs : list gen) :
+    (forall h, In h gs -> sample h k = Some (out_of_pyv (get h))) ->
+    option_map (fun p => out_of_pyv (fst p)) (concat_get_examples get gs) = sample (Concat gs) k.
+  Proof.
+    intros H. cbn [GenComb.sample]. rewrite (children_samples gs H), concat_out_py.
+    unfold concat_get_examples. cbv zeta.
+    destruct (index0 (map get gs)) as [e|]; [|reflexivity].
+    destruct (is_tensor e).
+    - destruct (cat_all (map get gs)); reflexivity.
+    - destruct (zip_star (map get gs)); reflexivity.
+  Qed.
+
+  (* EnsembleGenerator.get_examples *)
+  Theorem gen_ensemble_get_eq (gs : list gen) :
+    (forall h, In h gs -> sample h k = Some (out_of_pyv (get h))) ->
+    option_map (fun p => out_of_pyv (fst p)) (ensemble_get_examples get gs) = sample (Ensemble gs) k.
+  Proof.
+    intros H. cbn [GenComb.sample]. rewrite (children_samples gs H), children_cols.
+    unfold ensemble_get_examples. cbv zeta.
+    rewrite (flat_map_ext _ _ (fun g => norm_tuple_seq (get g))).
+    destruct (flat_map (fun g => cols_of (get g)) gs) as [|a [|b l]]; reflexivity.
+  Qed.
+
+  (* MeshGenerator.get_examples *)
+  Theorem gen_mesh_get_eq (gs : list gen) :
+    (forall h, In h gs -> sample h k = Some (out_of_pyv (get h))) ->
+    option_map (fun p => out_of_pyv (fst p)) (mesh_get_examples get gs) = sample (Mesh gs) k.
+  Proof.
+    intros H. cbn [GenComb.sample]. rewrite (children_samples gs H), children_cols.
+    unfold mesh_get_examples. cbv zeta.
+    rewrite (flat_map_ext _ _ (fun g => norm_tuple_seq (get g))).
+    destruct (flat_map (fun g => cols_of (get g)) gs) as [|a [|b l]] eqn:E; try reflexivity;
+      cbn [length Nat.eqb option_map fst out_of_pyv];
+      unfold flatten_nd; rewrite ?flat_map_singleton, ?map_id, meshgrid_ij_eq; reflexivity.
+  Qed.
+
+  (* TransformGenerator.get_examples with transform=<callable>: the user callable is the model's tmulti *)
+  Theorem gen_transform_callable_eq (g : gen) (t : nat) (v : pyv)
+          (trans_fn : list (list Z) -> pyv) (trans_list : list (list Z -> list Z)) :
+    sample g k = Some (out_of_pyv v) ->
+    (forall cs, tmulti t cs = out_of_pyv (trans_fn cs)) ->
+    option_map (fun p => out_of_pyv (fst p)) (transform_get_examples trans_fn trans_list v true) = sample (TransformF g t) k.
+  Proof.
+    intros Hs Ht. cbn [GenComb.sample]. rewrite Hs. unfold transform_get_examples. cbv zeta.
+    destruct v as [c|l|l]; cbn [is_tensor as_tensor as_seq out_of_pyv option_map fst]; rewrite Ht; reflexivity.
+  Qed.
+
+  (* ... with transforms=[t | None ...]: the list of callables is the model's per-dimension maps *)
+  Theorem gen_transform_list_eq (g : gen) (ts : list (option nat)) (v : pyv) (trans_fn : list (list Z) -> pyv) :
+    sample g k = Some (out_of_pyv v) ->
+    option_map (fun p => out_of_pyv (fst p)) (transform_get_examples trans_fn (map (app_t tvec) ts) v false)
+    = sample (TransformL g ts) k.
+  Proof.
+    intros Hs. cbn [GenComb.sample]. rewrite Hs. unfold transform_get_examples. cbv zeta.
+    destruct v as [c|l|l]; cbn [is_tensor as_tensor as_seq out_of_pyv option_map fst].
+    - destruct ts as [|t ts']; reflexivity.
+    - rewrite zipwith_apply. reflexivity.
+    - rewrite zipwith_apply. reflexivity.
+  Qed.
+
+  (* SamplerGenerator.get_examples: always a list, every vector reshaped to (n, 1), values untouched *)
+  Theorem gen_sampler_get_eq (g : gen) (v : pyv) :
+    built (norm g) = true -> sample (norm g) k = Some (out_of_pyv v) ->
+    sampler_get_examples v = Some (PL (cols_of v), tt) /\
+    run draw mask rperm rint tvec tmulti (Sampler g) k = Some (true, (FL, cols_of v)).
+  Proof.
+    intros Hb Hs. split.
+    - unfold sampler_get_examples, reshape_n1. cbv zeta. rewrite wrap_tensor_seq', map_id. reflexivity.
+    - unfold run. rewrite Hb, Hs. cbn [option_map]. rewrite snd_out_of_pyv. reflexivity.
+  Qed.
+End Bodies.
